@@ -19,6 +19,7 @@ Correspondence (real flax from /repo vs the compiled Lean driver `drv_c20`) and 
 from __future__ import annotations
 
 import itertools
+import sys
 import threading as real_threading
 import time
 import warnings
@@ -44,7 +45,9 @@ SPEC = {
     '(thorough), buffer_size<=2 (3), both endings (StopIteration / exception at position n, truthy and falsy '
     'exception objects), replayed step by step on the real code under the cooperative scheduler with enabled-set '
     'comparison and blocking probes; model schedules with close() inserted at a random point; implementation-driven '
-    'random interleavings with n<=9, buffer_size<=4, close() at random points; real-thread soak. '
+    'random interleavings with n<=9, buffer_size<=4, close() at random points; line-granular context-bounded '
+    'preemption (every line of prefetch_iterator.py is a preemption point; <=1 preemption for n<=2 x buffer_size<=2 x '
+    'ending, <=2 for n=0, random many); real-thread soak. '
     'prefetch_to_device: all n<=6 x size<=4 x ending x device count<=2. pad_shard_unpad: all b in [1,40] x d in '
     '{1,2,3,4,8} x min_device_batch in {None,0,1,2,3,5,7,12} with a pytree of inputs, static arg and static kwarg. '
     'scan_in_dim: ranks<=4, every axis tuple in every order and with every sign pattern (non-negative, negative, '
@@ -58,8 +61,12 @@ SPEC = {
     'harness/props/c20.py: generators, canonicalisation, NumPy reference loops, and the cooperative scheduler Coop '
     '(monitor contract of threading.Condition/Thread incl. notify bookkeeping and lock ownership: A-THREAD), '
     'cross-checked by a soak with the real threading module',
-    'granularity: interleavings are explored between the code\'s synchronisation points (Thread.start, next(source), '
-    'lock acquisition, wait_for); accesses to _buffer/_active/_error happen under the lock or before the thread exists',
+    'granularity: the Lean LTS and its replay interleave at the code\'s synchronisation points (Thread.start, '
+    'next(source), lock acquisition, wait_for) - sound because _buffer/_active/_error are only accessed under the lock '
+    'or before the thread exists; that premise is itself checked on the implementation by a line-granular exploration '
+    '(sys.settrace preemption point before every line of prefetch_iterator.py, lock ownership respected, judged by the '
+    'oracle alone): all single preemptions for n<=2, buffer_size<=2, all pairs for the smallest scope, random '
+    'multi-preemption runs; theorem prefetch_iterator_unlocked_active_counterexample shows what an unlocked write costs',
     'harness-side stand-ins for jax.device_put_sharded / jax.device_put_replicated (removed from the installed jax) '
     'and a mocked jax.local_device_count / local_devices, bound on flax.jax_utils.jax and '
     'flax.training.common_utils.jax in the checking process only',
@@ -102,11 +109,28 @@ class Hang(Exception):
   pass
 
 
+class _Signal:
+  """binary semaphore on a raw lock (threading.Semaphore is pure Python and ~5x slower per hand-off)"""
+
+  def __init__(self):
+    self._l = real_threading.Lock()
+    self._l.acquire()
+
+  def release(self):
+    try:
+      self._l.release()
+    except RuntimeError:  # already signalled (only at teardown)
+      pass
+
+  def acquire(self, timeout=None):
+    return self._l.acquire() if timeout is None else self._l.acquire(timeout=timeout)
+
+
 class MT:
   def __init__(self, name, fn):
     self.name = name
     self.fn = fn
-    self.go = real_threading.Semaphore(0)
+    self.go = _Signal()
     self.status = 'new'  # new | running | ready | blocked | lockwait | done
     self.tag = None
     self.info = {}
@@ -121,8 +145,9 @@ class MT:
 class Coop:
   """Real threads, one running at a time; the controller (harness thread) hands the baton out."""
 
-  def __init__(self, timeout=30.0):
-    self.ctrl = real_threading.Semaphore(0)
+  def __init__(self, timeout=30.0, trace_file=None):
+    self.trace_file = trace_file  # when set: every LINE executed in that source file is a preemption point
+    self.ctrl = _Signal()
     self.threads = []
     self.by_ident = {}
     self.aborting = False
@@ -161,6 +186,8 @@ class Coop:
     mt.go.acquire()
     try:
       if not self.aborting:
+        if self.trace_file is not None:
+          sys.settrace(self._tracer)
         mt.fn()
     except _Abort:
       pass
@@ -170,6 +197,16 @@ class Coop:
       mt.status = 'done'
       self.by_ident.pop(real_threading.get_ident(), None)
       self.ctrl.release()
+
+  def _tracer(self, frame, event, arg):
+    if event == 'call' and frame.f_code.co_filename == self.trace_file:
+      return self._line_tracer
+    return None
+
+  def _line_tracer(self, frame, event, arg):
+    if event == 'line':
+      self.park('ready', 'line', line=frame.f_lineno, fn=frame.f_code.co_name)
+    return self._line_tracer
 
   def park(self, status, tag=None, **info):
     mt = self.current()
@@ -701,6 +738,155 @@ def random_walk(ctx, rng, n, ending, bs, allow_close, max_steps=400):
 
 
 # ------------------------------------------------------------------------------------------------
+# (B') implementation-driven exploration at LINE granularity: does not presuppose where the locks are
+# ------------------------------------------------------------------------------------------------
+
+PI_FILE = pi.__file__[:-1] if pi.__file__.endswith('.pyc') else pi.__file__
+
+
+class FineRun:
+  """PrefetchIterator with a preemption point before every source line of prefetch_iterator.py (sys.settrace in
+  the managed threads) in addition to the synchronisation points; a thread that waits for the Condition's lock
+  or sleeps in wait()/wait_for() cannot run.  Two threads: the consumer (constructor, then next() calls until it
+  has seen two endings) and the producer."""
+
+  def __init__(self, n, ending, bs):
+    self.coop = Coop(trace_file=PI_FILE)
+    self.n, self.ending, self.bs = n, ending, bs
+    self.src = CoopSource(self.coop, n, ending)
+    self.out = []
+    self.ctor_err = None
+    self.saved = pi.threading
+    pi.threading = ShimThreading(self.coop)
+    self.cons = self.coop.spawn('consumer', self._consumer)
+    self.trail = []
+
+  def _consumer(self):
+    try:
+      it = pi.PrefetchIterator(self.src, buffer_size=self.bs)
+    except _Abort:
+      raise
+    except Exception as e:  # noqa: BLE001
+      self.ctor_err = type(e).__name__
+      return
+    terms = 0
+    while terms < 2 and len(self.out) < self.n + 4:
+      o = _obs_of(lambda: next(it))
+      self.out.append(o)
+      if not (isinstance(o, dict) and 'item' in o):
+        terms += 1
+
+  def finish(self):
+    pi.threading = self.saved
+    self.coop.shutdown()
+
+  def runnable(self, mt):
+    if mt.status in ('new', 'ready'):
+      return True
+    if mt.status == 'lockwait':
+      c = mt.info.get('cond')
+      return c is not None and c.owner is None
+    if mt.status == 'blocked':
+      return mt.notified and mt.cond is not None and mt.cond.owner is None
+    return False
+
+  def run(self, preempt=(), rng=None, p_switch=0.0, max_steps=3000):
+    """Non-preemptive by default (a thread runs until it blocks or ends, then the other one runs); `preempt` is a
+    set of step numbers at which the running thread is preempted; with `rng`, additionally switches at random.
+    Returns (steps, deadlock)."""
+    cur = self.cons
+    step = 0
+    while step < max_steps:
+      threads = self.coop.threads
+      if self.cons.status == 'done':
+        return step, False
+      others = [t for t in threads if t is not cur and self.runnable(t)]
+      want_switch = (step in preempt) or (rng is not None and rng.random() < p_switch)
+      if (not self.runnable(cur)) or (want_switch and others):
+        if not others:
+          return step, True  # nobody can move and the consumer has not finished
+        cur = others[0] if rng is None else rng.choice(others)
+        if want_switch:
+          self.trail.append(step)
+      self.coop.resume(cur)
+      step += 1
+    return step, False
+
+
+def fine_case(ctx, n, ending, bs, preempt=(), rng=None, p_switch=0.0):
+  """one line-granular run, judged by the property oracle alone; returns the number of steps"""
+  run = FineRun(n, ending, bs)
+  crashes, deadlock, steps = [], False, 0
+  try:
+    steps, deadlock = run.run(preempt, rng, p_switch)
+    out = list(run.out)
+    crashes = run.crashes() if hasattr(run, 'crashes') else [f'{mt.name}:{type(mt.crash).__name__}' for mt in run.coop.threads if mt.crash is not None]
+    if run.ctor_err:
+      crashes.append('ctor:' + run.ctor_err)
+  except Hang as e:
+    out, crashes = list(run.out), ['hang:' + str(e)]
+  finally:
+    trail = list(run.trail)
+    run.finish()
+  case = {'kind': 'pi-fine', 'n': n, 'ending': ending, 'bs': bs, 'preempt': sorted(trail)}
+  ctx.case(case, nontrivial=n > 0 or ending != 'stop')
+  bad = oracle_prefix(out, n, ending)
+  if bad is None and crashes:
+    bad = f'thread crashed: {crashes}'
+  if bad is None and deadlock:
+    bad = 'deadlock: no thread can move and the consumer has not finished'
+  if bad is None and len(out) < n + 2:
+    bad = f'only {len(out)} observations'
+  if bad is not None:
+    ctx.violation(
+      pi_key(n, ending, bs, 'wrong-delivery-line-preemption'),
+      f'PrefetchIterator(n={n}, ending={ending}, buffer_size={bs}) with the running thread preempted before its steps {sorted(trail)} '
+      f'(line granularity, otherwise run-to-block): {bad}; observed {out}',
+      dict(case, observed=out),
+    )
+    return steps, True
+  return steps, False
+
+
+def check_pi_fine(ctx, rng, thorough):
+  """context-bounded exploration: every single preemption point for all small scopes, every pair of preemption
+  points for the smallest scopes, and random multi-preemption runs"""
+  scopes = [(n, e, bs) for n in (0, 1, 2) for bs in (1, 2) for e in (('stop', {'raises': 20 + n + bs}, {'raises': 31 + n}) if thorough else ('stop', {'raises': 20 + n + bs}))]
+  found = set()
+  for n, e, bs in scopes:
+    L0, bad = fine_case(ctx, n, e, bs)
+    ctx.count('pi_fine_steps_per_run', L0 // 20 * 20)
+    for i in range(L0 + 8):
+      if (n, bs) in found:
+        break
+      _, bad = fine_case(ctx, n, e, bs, preempt={i})
+      ctx.count('pi_fine_runs', 'one preemption')
+      if bad:
+        found.add((n, bs))
+  pairs = [(0, {'raises': 21}, 1)] + ([(1, {'raises': 22}, 1), (0, 'stop', 1), (1, {'raises': 23}, 2), (2, {'raises': 24}, 1)] if thorough else [])
+  for n, e, bs in pairs:
+    L0, _ = fine_case(ctx, n, e, bs)
+    stop = False
+    for i in range(L0 + 4):
+      Li, bad = fine_case(ctx, n, e, bs, preempt={i})
+      for j in range(i + 1, Li + 4, 1 if thorough else 2):
+        _, bad = fine_case(ctx, n, e, bs, preempt={i, j})
+        ctx.count('pi_fine_runs', 'two preemptions')
+        if bad:
+          stop = True
+          break
+      if stop:
+        break
+  for k in range(1200 if thorough else 160):
+    n, bs = rng.choice([0, 1, 2, 3]), rng.choice([1, 2, 3])
+    e = 'stop' if rng.random() < 0.3 else {'raises': rng.randrange(1, 60)}
+    _, bad = fine_case(ctx, n, e, bs, rng=rng, p_switch=rng.choice([0.03, 0.1, 0.3]))
+    ctx.count('pi_fine_runs', 'random preemptions')
+    if bad and k > 20:
+      break
+
+
+# ------------------------------------------------------------------------------------------------
 # (C) real threads
 # ------------------------------------------------------------------------------------------------
 
@@ -1100,9 +1286,9 @@ def check_scan_in_dim(ctx, drv, cases):
     size = int(np.prod(shape))
     data = ((np.arange(size) * 7 + 3) % 23).astype(np.int64)
     xs = data.reshape(shape)
-    # most cases run lax.scan eagerly (jax.disable_jit: same flax code, no XLA compile per axis tuple); every 6th case
+    # most cases run lax.scan eagerly (jax.disable_jit: same flax code, no XLA compile per axis tuple); every 12th case
     # goes through the traced/compiled path
-    jitted = len(recs) % 6 == 0
+    jitted = len(recs) % 12 == 0
     ctx.count('scan_execution', 'compiled lax.scan' if jitted else 'eager lax.scan (disable_jit)')
     if jitted:
       r = call(lambda: ju.scan_in_dim(body_jnp(kind), jnp.asarray(init, jnp.int32), jnp.asarray(xs, jnp.int32), axis=tuple(axis), keepdims=keepdims))
@@ -1390,6 +1576,7 @@ def run(ctx):
   t = drv.run([('pi_trace', ['fixed', 0, 'stop', [1, 2], ['ctor', 'ctor', 'ctor', 'fetch', 'put', 'next']])])[0]
   replay_schedule(ctx, 2, 'stop', 0, ['ctor', 'ctor', 'ctor', 'fetch', 'put', 'next'], t, None, origin='excluded-point')
   ctx.count('excluded_points_run', 'buffer_size=0')
+  check_pi_fine(ctx, rng, thorough)
   real_soak(ctx, rng, 1500 if thorough else 150)
 
   # ---- prefetch_to_device ------------------------------------------------------------------------
@@ -1439,6 +1626,8 @@ def _run_case(ctx, drv, obj):
       replay_schedule(ctx, n, e, bs, taken, t, None, origin='replay')
     for _ in range(30):
       random_walk(ctx, ctx.rng, case['n'], case['ending'], case['bs'], case.get('allow_close', False))
+  elif kind == 'pi-fine':
+    fine_case(ctx, case['n'], case['ending'], case['bs'], preempt=set(case.get('preempt', [])))
   elif kind == 'pi-real':
     real_soak(ctx, ctx.rng, 60)
   elif kind == 'ptd':
